@@ -157,6 +157,10 @@ def reduce_labels(case, labels, x, values):
     for c in case.get("constraints", []):
         if c["target"] in labels and constraint_applies(c, x):
             zero.add(labels.index(c["target"]))
+    for si, ti, _ in rel_applied:
+        if ti in zero:
+            # the statement demands both clp = 0 and clp = p * source: undefined unless the source is zero too
+            raise Ambiguous("constraint and relation on the same target at one index")
     keep = [i for i in range(n) if i not in removed and i not in zero]
     return keep, T[:, keep], rel_applied, zero
 
